@@ -3,7 +3,7 @@ package main
 func init() {
 	register(&Check{
 		ID: "C02", Level: "exploration",
-		NCases: func(t string) int { return tier(t, 160, 1200) },
+		NCases: func(t string) int { return tier(t, 160, 600) },
 		Run:    runC02,
 		Rule: "[also: 1 case in 16 is a large-geometry history (segments of 9-330 KB: >1000 live records in one segment, or values of 1-69 KB around the 4 KiB and 64 KiB marks and with whole pages of zero bytes; Merge and reopen twice, compared with the model); bucket names include one with a dot] case = (FileIO|MMap x StartFileLoadingMode x SegmentSize 150..600, seeded single-bucket history of Put/PutWithTimestamp/Delete transactions with Close/Open every ~15 transactions) in HintBPTSparseIdxMode against the ordered-map model; " +
 			"Get of every key, GetAll, RangeScan, PrefixScan (ScanNoLimit and a huge positive limit) compared after commits and after every reopen, including reads of a never-written bucket; " +
